@@ -311,6 +311,10 @@ func c05Graphs(r *rt.Rec, rng *rand.Rand, n int) {
 			// a graph whose text is much larger than any reader buffer
 			sz = 100 + rng.Intn(400)
 		}
+		if k%32 == 31 {
+			// more triples than any plausible batch size, also exact multiples
+			sz = []int{1024, 1030, 2000, 2048, 1000 + rng.Intn(1200)}[rng.Intn(5)]
+		}
 		var ts []*triple.Triple
 		for i := 0; i < sz; i++ {
 			ts = append(ts, gen.HTriple(rng, true))
